@@ -2,6 +2,7 @@
    extracted OCaml runner and by the in-Coq vm_compute cross-check on identical input. *)
 From PS Require Import Lib.Base Generated.Consts Model.SdTypes Model.Config.
 From PS Require Import Lib.Struct Model.Someip Model.SdCodec Model.Session Model.ServiceRecv.
+From PS Require Import Model.StackTypes Model.Stack Model.StackIO.
 From PS Require Import Spec.C19Spec Spec.C07Spec Spec.C16Spec Spec.C01Spec Spec.C02Spec.
 
 Definition bad : sexp := L [A 255; A 255; A 255].
@@ -93,4 +94,5 @@ Definition dispatch (op : N) (arg : sexp) : sexp :=
   else if (100 <? op) && (op <? 300) then of_opt (dispatch_codec op arg)
   else if (700 <? op) && (op <? 900) then of_opt (dispatch_session op arg)
   else if (1600 <? op) && (op <? 1700) then of_opt (dispatch_service op arg)
+  else if op =? 3001 then of_opt (run_op arg)
   else bad.
